@@ -65,6 +65,11 @@ def _pure(repo, col):
                       "derived cache rebuilt by to_jax",
                       f"calling integrate writes `module{e.path}` ({chain}: `{unparse(e.node)[:80]}`): the module is not "
                       f"left untouched, a repeated call sees different parameters/inputs", node=e.node)
+        elif e.root.startswith("param:") and "[*]" in e.path and e.root[6:] in ("pstate", "params", "param_state", "all_params"):
+            col.bad(R, e.fi, f"entries of `{e.root[6:]}` rewritten in place via {chain}: {unparse(e.node)[:60]}",
+                    f"`{unparse(e.node)[:80]}` ({chain}) stores into the elements of `{e.root[6:]}`: these are the caller's own objects "
+                    f"(the dictionaries returned by data_set / get_parameters); the same objects are passed to the next call, which then "
+                    f"sees the rewritten values (e.g. indices converted twice)", node=e.node)
         elif e.root.startswith("param:") and e.fi.qual.startswith("integrate") is False and not e.via:
             continue
         elif e.root.startswith("param:"):
@@ -75,6 +80,24 @@ def _pure(repo, col):
                         f"for the default `params=[]` the change persists into every later call", node=e.node)
         elif e.root.startswith("default:"):
             col.bad(R, e.fi, f"mutable default {e.root[8:]} mutated via {chain}", "state leaks between calls", node=e.node)
+    # entries of a sequence that a function on the simulation path received: never rewritten (the list may be fresh, its
+    # elements are the caller's dictionaries from data_set() / get_parameters())
+    by_key = {}
+    for f_ in repo.all_functions():
+        by_key[f_.file + ":" + f_.qual] = f_
+    n_reach = 0
+    for k_ in list(E._summary):
+        f_ = by_key.get(k_)
+        if f_ is None:
+            continue
+        n_reach += 1
+        for e in E.direct(f_):
+            if e.root.startswith("param:") and "[*]" in e.path and e.root[6:] in ("pstate", "params", "param_state", "all_params", "trainable_params"):
+                col.bad(R, f_, f"entries of `{e.root[6:]}` rewritten in place in {f_.qual}: {unparse(e.node)[:60]}",
+                        f"`{unparse(e.node)[:80]}` stores into the elements of `{e.root[6:]}`: these are the caller's own objects (the "
+                        f"dictionaries returned by data_set / get_parameters); the same objects are passed to the next call, which then "
+                        f"sees the rewritten values (e.g. indices converted twice)", node=e.node)
+    col.info["functions_scanned_for_element_mutation"] = n_reach
     # the local copies exist (positive instances for the evidence)
     ex = idx.expander(repo, fi)
     for name in ("externals", "external_inds"):
